@@ -11,7 +11,7 @@ func TestVerifWorker(t *testing.T) {
 	hx.WorkerMain(t, map[string]*hx.Prop{
 		"C01": {ID: "C01", Gen: genC01, Engine: execC01},
 		"C03": {ID: "C03", Gen: genC03, Engine: execC03},
-		"C08": {ID: "C08", Gen: genC08, Engine: execC08},
+		"C08": {ID: "C08", Gen: genC08, Engine: execC08, Avoid: avoidC08},
 		"C09": {ID: "C09", Gen: genC09, Engine: execC09, Expand: expandC09},
 		"C05": {ID: "C05", Gen: genC05, Engine: execC05, Expand: expandC05},
 	})
